@@ -287,7 +287,18 @@ fn always<R>(_: Op, _: &R, _: &R) -> bool {
 fn ratio_safe64(op: Op, x: &Q, y: &Q) -> bool {
     let (a, b, c, d) = (&x.n, &x.d, &y.n, &y.d);
     match op {
-        Op::Add | Op::Sub => fit63(&(zabs(&(a * d)) + zabs(&(b * c)))) && fit63(&(b * d)),
+        // the library's documented algorithm: l = lcm(b, d), numerator a*(l/b) +- c*(l/d), denominator l.
+        // Whenever these fit the result must be exact - even if the textbook products ad, bc, bd do not
+        // fit (denominators with a large common factor; seed `C14-int-lcm-via-full-product`).
+        Op::Add | Op::Sub => {
+            if x.n.is_zero() || y.n.is_zero() {
+                return true;
+            }
+            let g = { let (mut p, mut q) = (zabs(b), zabs(d)); while !q.is_zero() { let r = &p % &q; p = q; q = r; } p };
+            let l = zabs(&(b / &g * d));
+            let (xa, yc) = (zabs(&(a * (&l / b))), zabs(&(c * (&l / d))));
+            fit63(&l) && fit63(&(xa + yc))
+        }
         Op::Mul => fit63(&(a * c)) && fit63(&(b * d)),
         Op::Div => fit63(&(a * d)) && fit63(&(b * c)),
     }
